@@ -64,18 +64,26 @@ def sliceItemPorts : Sv.Item → Option Sv.Item
   | .inst m ps n bs => some (.inst m (ps.filter fun (p, _) => isPortsName p) n (bs.filter fun b => isPortsName b.port))
   | _ => none
 
+/-- the slice as a list of rendered items; declarations are compared as a multiset (their order in
+    the file carries no meaning for any property), so the list is sorted -/
+def sliceItems (which : String) (p : Sv.Package) (m : Sv.Module) : List (List String) :=
+  let items : List (List String) :=
+    match which with
+    | "routing+wiring" =>
+      (p.items.filterMap sliceItemRouting).map Sv.Item.render ++ (m.items.filterMap sliceItemWiring).map Sv.Item.render
+    | "wiring" => (m.items.filterMap sliceItemWiring).map Sv.Item.render
+    | "ports" =>
+      (p.items.filter fun it => match it with
+        | .localparam t _ _ => t.words == ["axi_cfg_t"]
+        | .typedef _ n => n.endsWith "_t" && (n.endsWith "_addr_t" || n.endsWith "_data_t" || n.endsWith "_strb_t" || n.endsWith "_id_t" || n.endsWith "_user_t") && n != "id_t"
+        | _ => false).map Sv.Item.render ++
+      m.ports.map Sv.Port.render ++ (m.items.filterMap sliceItemPorts).map Sv.Item.render
+    | _ => [p.render ++ m.render]
+  let key (l : List String) : String := String.intercalate " " l
+  (items.map fun l => (key l, l)).mergeSort (fun a b => a.1 ≤ b.1) |>.map (·.2)
+
 def sliceTokens (which : String) (p : Sv.Package) (m : Sv.Module) : List String :=
-  match which with
-  | "routing+wiring" =>
-    (p.items.filterMap sliceItemRouting).flatMap Sv.Item.render ++ (m.items.filterMap sliceItemWiring).flatMap Sv.Item.render
-  | "wiring" => (m.items.filterMap sliceItemWiring).flatMap Sv.Item.render
-  | "ports" =>
-    (p.items.filter fun it => match it with
-      | .localparam t _ _ => t.words == ["axi_cfg_t"]
-      | .typedef _ n => n.endsWith "_t" && (n.endsWith "_addr_t" || n.endsWith "_data_t" || n.endsWith "_strb_t" || n.endsWith "_id_t" || n.endsWith "_user_t") && n != "id_t"
-      | _ => false).flatMap Sv.Item.render ++
-    m.ports.flatMap Sv.Port.render ++ (m.items.filterMap sliceItemPorts).flatMap Sv.Item.render
-  | _ => p.render ++ m.render
+  (sliceItems which p m).flatMap fun l => l ++ ["⏎"]
 
 /-- run the Lean model of the generator and compare its token streams with the implementation's -/
 def modelCompare (d : Desc) (impl : Option (Sv.Package × Sv.Module)) (slice : String) : Json :=
@@ -152,8 +160,9 @@ def handle (j : Json) : Except String Json := do
     let kind ← (← j.getObjVal? "kind").getStr?
     let dims ← (← (← j.getObjVal? "dims").getArr?).toList.mapM (·.getNat?)
     let g0 : Model.Graph := {}
-    let g ← match (if kind == "tree" then g0.addNodesAsTree "r" dims 0 true (dims.length + 1) 0
-                     else g0.addNodesAsArray "r" dims .router 0 false) with
+    let nm := (j.getObjValD "name").getStr?.toOption.getD "r"
+    let g ← match (if kind == "tree" then g0.addNodesAsTree nm dims 0 true (dims.length + 1) 0
+                     else g0.addNodesAsArray nm dims .router 0 false) with
       | .ok g => pure g
       | .error e => throw s!"build: {e.msg}"
     let sel ← (← j.getObjVal? "sel").getStr?
@@ -163,11 +172,11 @@ def handle (j : Json) : Except String Json := do
           match (← p.getArr?).toList with
           | [a, b] => pure ((← a.getInt?), (← b.getInt?))
           | _ => throw "pair"
-        pure (g.nodesFromRange "r" rng)
+        pure (g.nodesFromRange nm rng)
       | "idx" =>
         let idx ← (← (← j.getObjVal? "idx").getArr?).toList.mapM (·.getInt?)
-        pure (g.nodesFromIdx "r" idx)
-      | "lvl" => pure (g.nodesFromLvl "r" (← (← j.getObjVal? "lvl").getInt?))
+        pure (g.nodesFromIdx nm idx)
+      | "lvl" => pure (g.nodesFromLvl nm (← (← j.getObjVal? "lvl").getInt?))
       | _ => throw "sel"
     return match res with
       | .ok l => Json.mkObj [("ok", true), ("nodes", Json.arr (l.map Json.str).toArray)]
